@@ -43,6 +43,10 @@ def run(ck):
         N = 32
         p = {"xc": 16 + rng.uniform(-2, 2), "yc": 16 + rng.uniform(-2, 2), "flux": 50.0, "r_eff": rng.uniform(2, 2.6), "n": rng.uniform(0.8, 2.5), "ellip": rng.uniform(0, 0.5), "theta": rng.uniform(0, 3)}
         cases.append({"mode": "conv", "N": N, "P": rng.choice([3, 5, 7]), "seed": rng.randint(0, 999), "params": p})
+    for shp in ([(3, 5), (5, 3)] if quick else [(3, 5), (5, 3), (1, 3), (3, 1), (5, 7), (7, 3)]):
+        N = rng.choice([12, 13, 16])
+        cases.append({"mode": "point_ns", "N": N, "P": shp[0], "shape": list(shp), "seed": rng.randint(0, 999), "xc": float(rng.randint(5, N - 6)), "yc": float(rng.randint(5, N - 6)),
+                      "flux": rng.choice([1.0, 7.5])})
     for N in ([3, 4] if quick else [2, 3, 4, 5, 6]):
         a = [[float(formlib.dy(rng, -4, 4, 3)) for _ in range(N)] for _ in range(N)]
         b = [[float(formlib.dy(rng, -4, 4, 3)) for _ in range(N)] for _ in range(N)]
@@ -84,7 +88,7 @@ def run(ck):
                 goals2.append((ci, "fftconv:N=%d" % N, "Goal Rabs (Re (circ_conv2 %d (rtab %s) (rtab %s) %d %d) - %s) <= 1 / 1000.\nProof. d2_eval; interval with (i_prec 60). Qed."
                                % (N, ta, tb, rr, cc, q(h))))
     ck.extra["worst_deviation_fraction_of_peak"] = worst
-    ck.rule = ("ramp: N=8..16, P=1..7 odd and even, random frequencies; point: asymmetric off-centre-peaked stamps P=1..5 on N=8..16 frames, integer and fractional positions inside the frame, "
+    ck.rule = ("ramp: N=8..16, P=1..7 odd and even, random frequencies; point: asymmetric off-centre-peaked stamps P=1..5 on N=8..16 frames, integer and fractional positions inside the frame, non-square odd stamps, "
                "three renderers; conv: sersic sources vs circular spatial convolution of the renderer's own intrinsic image, unit PSF")
     ok, detail, failing = True, "", []
     if any(o["name"].startswith("translate:") and not o["ok"] for o in ck.obligations):
